@@ -51,7 +51,12 @@ Definition sum_usize (values : N) : N :=
 
 Definition count_chunk (value b : N) : N := sum_usize (bytewise_equal value (repeat_byte b)).
 
+(* high bit of every non-zero lane (no carries between lanes: (x & 0x7f) + 0x7f <= 0xfe) *)
+Definition nonzero_lanes (x : N) : N :=
+  let lo7 := repeat_byte 127 in
+  N.land (N.lor (wadd (N.land x lo7) lo7) x) (repeat_byte 128).
+
 Definition leading_whitespace (value : N) : N :=
   let res1 := N.lxor value (repeat_byte lw_byte1) in
   let res2 := N.lxor value (repeat_byte lw_byte2) in
-  N.shiftr (trailing_zeros (N.land res1 res2)) 3.
+  N.shiftr (trailing_zeros (N.land (nonzero_lanes res1) (nonzero_lanes res2))) 3.
